@@ -829,7 +829,30 @@ fn main() {
         use std::io::Write as _;
         let mut fi = fs::File::create(format!("{outdir}/ben_block.in")).unwrap();
         let mut fo = fs::File::create(format!("{outdir}/ben_block.impl")).unwrap();
-        for _ in 0..count {
+        // a block on which the scheduler never returns must not depend on how loaded the machine is:
+        // the verdict is "no case finished for 60 s" (a case takes milliseconds), reported in the
+        // result file; the caller's overall time limit only truncates the sample
+        let progress = std::sync::Arc::new(std::sync::atomic::AtomicU64::new(0));
+        {
+            let progress = progress.clone();
+            let path = format!("{outdir}/ben_block.impl");
+            std::thread::spawn(move || {
+                let mut last = (u64::MAX, std::time::Instant::now());
+                loop {
+                    std::thread::sleep(std::time::Duration::from_millis(500));
+                    let cur = progress.load(std::sync::atomic::Ordering::SeqCst);
+                    if cur != last.0 {
+                        last = (cur, std::time::Instant::now());
+                    } else if last.1.elapsed() > std::time::Duration::from_secs(60) {
+                        let mut f = fs::OpenOptions::new().append(true).open(&path).unwrap();
+                        writeln!(f, " X:scheduler-did-not-return-on-this-block").unwrap();
+                        std::process::exit(0);
+                    }
+                }
+            });
+        }
+        for case_no in 0..count {
+            progress.store(case_no, std::sync::atomic::Ordering::SeqCst);
             let mut case_rng = rng.fork();
             let (mut inp, mut out) = (String::new(), String::new());
             // the input line is complete before the block runs
